@@ -89,12 +89,15 @@ def make_schema(case, override=False):
         # the governing component is declared DEFAULT: when the value equals the default it is not on the wire at all
         id_nt = namedtype.DefaultedNamedType('id', keycls(gov_py(gk, case['gov_default'])))
     z = univ.Integer().subtype(implicitTag=ptag.Tag(ptag.tagClassContext, ptag.tagFormatSimple, 9))
-    sch = cls(componentType=namedtype.NamedTypes(
-        id_nt, (namedtype.OptionalNamedType if case.get('blob_opt') else namedtype.NamedType)('blob', blob, openType=ot),
-        *(extra + [namedtype.NamedType('z', z)]),
+    members = [id_nt, (namedtype.OptionalNamedType if case.get('blob_opt') else namedtype.NamedType)('blob', blob, openType=ot)] + extra + [
+        namedtype.NamedType('z', z),
         # (a list after the open type field: options meant for the open type elements must not reach it)
         namedtype.NamedType('zs', univ.SequenceOf(componentType=univ.Integer()).subtype(
-            implicitTag=ptag.Tag(ptag.tagClassContext, ptag.tagFormatConstructed, 10)))))
+            implicitTag=ptag.Tag(ptag.tagClassContext, ptag.tagFormatConstructed, 10)))]
+    if case.get('gov_after'):
+        # the governing component is declared AFTER the field it governs (ANY DEFINED BY does not prescribe an order)
+        members = members[1:] + members[:1]
+    sch = cls(componentType=namedtype.NamedTypes(*members))
     tmap.update(entries)
     LAST['tmap'] = tmap
     if case.get('wrap_choice'):
@@ -406,6 +409,8 @@ def run_shard(desc, seed, tier, col):
             case['gov_default'] = gov if d.pct(65) else mp[0][0]
             if case['field'] == 'any':
                 case['field'] = 'any-explicit'      # an untagged ANY after a component that may be absent would be ambiguous
+        elif d.pct(25) and case['field'] != 'any' and not case.get('second'):
+            case['gov_after'] = True
         return case
 
     def body(case):
@@ -418,7 +423,7 @@ def run_shard(desc, seed, tier, col):
         nontriv = ir.depth(Tin) >= 1 or case['field'] != 'any' or case['container'] == 'SET' or bool(case.get('override'))
         feats = ['field:' + case['field'], 'container:' + case['container'], 'gov:' + case['gov_kind'],
                  'mapped' if any(k == case['gov'] for k, _t in case['map']) else 'unmapped',
-                 'inner:constructed' if ir.depth(Tin) >= 1 else 'inner:primitive'] + (['override'] if case.get('override') else []) + ['map-fill:' + case['fill']] + (['governor-DEFAULT' + ('=value' if case.get('gov_default') == case['gov'] else '')] if case.get('gov_default') is not None else []) + (['field-OPTIONAL'] if case.get('blob_opt') else []) + (['governor-absent'] if case.get('gov_absent') else []) + (['inside-tagged-CHOICE'] if case.get('wrap_choice') else []) + (['second-open-field'] if case.get('second') else [])
+                 'inner:constructed' if ir.depth(Tin) >= 1 else 'inner:primitive'] + (['override'] if case.get('override') else []) + ['map-fill:' + case['fill']] + (['governor-DEFAULT' + ('=value' if case.get('gov_default') == case['gov'] else '')] if case.get('gov_default') is not None else []) + (['field-OPTIONAL'] if case.get('blob_opt') else []) + (['governor-absent'] if case.get('gov_absent') else []) + (['inside-tagged-CHOICE'] if case.get('wrap_choice') else []) + (['second-open-field'] if case.get('second') else []) + (['governor-after-field'] if case.get('gov_after') else [])
         col.case(case, nontriv, feats, sample={'map': [[k, ir.show_type(t)[:60]] for k, t in case['map']], 'container': case['container'],
                                                'field': case['field'], 'governing_value': case['gov'], 'inner_type': ir.show_type(Tin)[:80],
                                                'inner_values': absval.short(case['inner_values'], 100)})
